@@ -6,8 +6,8 @@ variable {M K R : Type}
 /-- How the id of an `Update` is resolved: as given (after the id interceptor), or generated. -/
 def Resolved (cfg : Cfg M K R) (t : SState M R) (id : String) (wr : WriteReq M K)
     (id1 : String) (calls : List String) (t1 : SState M R) : Prop :=
-  ((icptId cfg id = "" && wr.genEmptyID) = false ∧ id1 = icptId cfg id ∧ calls = [] ∧ t1 = t) ∨
-  ((icptId cfg id = "" && wr.genEmptyID) = true ∧
+  ((idAbsent cfg id && wr.genEmptyID) = false ∧ id1 = icptId cfg id ∧ calls = [] ∧ t1 = t) ∨
+  ((idAbsent cfg id && wr.genEmptyID) = true ∧
     ∃ rng', genID cfg (fun k => (t.m k).isSome) t.rng = (some id1, rng') ∧
       calls = (if wr.idCb then [id1] else []) ∧ t1 = { t with rng := rng' })
 
@@ -20,7 +20,7 @@ inductive UpdOutcome (cfg : Cfg M K R) (t : SState M R) (id : String) (msg : M) 
   | invalid (c : Code) : cfg.ops.validate (fieldUpdater cfg wr) msg = some c →
       UpdOutcome cfg t id msg wr (failOut c [] 0, t)
   | exhausted (rng' : R) : cfg.ops.validate (fieldUpdater cfg wr) msg = none →
-      (icptId cfg id = "" && wr.genEmptyID) = true →
+      (idAbsent cfg id && wr.genEmptyID) = true →
       genID cfg (fun k => (t.m k).isSome) t.rng = (none, rng') →
       UpdOutcome cfg t id msg wr (failOut .aborted [] 0, { t with rng := rng' })
   | alreadyExists (id1 calls t1) (it : Item M) : cfg.ops.validate (fieldUpdater cfg wr) msg = none →
@@ -45,6 +45,44 @@ inductive UpdOutcome (cfg : Cfg M K R) (t : SState M R) (id : String) (msg : M) 
       Resolved cfg t id wr id1 calls t1 → t.m id1 = none → wr.createIfAbsent = true →
       Spec.newValue cfg.ops wr (fieldUpdater cfg wr) msg (some cfg.ops.zero) cfg.ops.zero = .ok new →
       UpdOutcome cfg t id msg wr (Spec.commit cfg wr t1 id1 none new calls (if wr.createdCb then 1 else 0))
+
+/-- where the error of the change phase comes from: a mismatching expected value (`FailedPrecondition`), or
+it is the very code the caller's own expected check returned -/
+theorem newValue_error (ops : MsgOps M K) (wr : WriteReq M K) (u : Upd K) (msg : M) (old : Option M) (base : M)
+    (c : Code) (hn : Spec.newValue ops wr u msg old base = .error c) :
+    c = .failedPrecondition ∨ ∃ chk, wr.expectedCheck = some chk ∧ chk old = some c := by
+  unfold Spec.newValue at hn
+  have hchkpart : (match (match wr.expectedCheck with | some chk => chk old | none => none) with
+        | some c => (Except.error c : Except Code M)
+        | none => Except.ok (match wr.after with
+            | some f => f old (ops.merge u base
+                (match wr.before with | some f => f old msg | none => msg))
+            | none => ops.merge u base
+                (match wr.before with | some f => f old msg | none => msg))) = Except.error c →
+      ∃ chk, wr.expectedCheck = some chk ∧ chk old = some c := by
+    intro hn
+    cases hchk : wr.expectedCheck with
+    | none => simp [hchk] at hn
+    | some chk =>
+      simp only [hchk] at hn
+      cases hco : chk old with
+      | none => simp [hco] at hn
+      | some c' =>
+        simp only [hco, Except.error.injEq] at hn
+        exact ⟨chk, rfl, by rw [hco, hn]⟩
+  cases hev : wr.expectedValue with
+  | none =>
+    simp only [hev, Bool.false_eq_true, ↓reduceIte] at hn
+    exact Or.inr (hchkpart hn)
+  | some ev =>
+    simp only [hev] at hn
+    cases hq : eqOpt ops old (some ev) with
+    | false =>
+      simp only [hq, Bool.not_false, ↓reduceIte, Except.error.injEq] at hn
+      exact Or.inl hn.symm
+    | true =>
+      simp only [hq, Bool.not_true, Bool.false_eq_true, ↓reduceIte] at hn
+      exact Or.inr (hchkpart hn)
 
 theorem spec_update_outcome (cfg : Cfg M K R) (t : SState M R) (id : String) (msg : M) (wr : WriteReq M K) :
     UpdOutcome cfg t id msg wr (Spec.update cfg t id msg wr) := by
@@ -92,7 +130,7 @@ theorem spec_update_outcome (cfg : Cfg M K R) (t : SState M R) (id : String) (ms
           cases hn : Spec.newValue cfg.ops wr (fieldUpdater cfg wr) msg (some cfg.ops.zero) cfg.ops.zero with
           | error c => exact UpdOutcome.createFailed id1 calls t1 c hv hr hl hcia hn
           | ok new => exact UpdOutcome.created id1 calls t1 new hv hr hl hcia hn
-    cases hg : (icptId cfg id = "" && wr.genEmptyID) with
+    cases hg : (idAbsent cfg id && wr.genEmptyID) with
     | false =>
       simp only [Bool.false_eq_true, ↓reduceIte]
       exact rest _ _ _ (Or.inl ⟨hg, rfl, rfl, rfl⟩)
